@@ -8,8 +8,9 @@ import AspireModel.Gen.SrcHist
   `src_history_roundtrip`: for every history — any recorded series and other attributes that form a well-formed dictionary not using the
   counter's key, ANY number of stored populations — and every file and group path, loading what was saved gives back the same populations in
   the same order and the same attributes (as a set of entries), provided a population survives `Samples.save` / `load` (C13's sample-record
-  theorem) and the datasets of the group are read in the order written (for another listing order — h5py lists alphabetically — the
-  dictionary part is `C13.codec_roundtrip_perm`; the populations do not depend on it).  The proof goes through exactly the facts a layout bug breaks:
+  theorem) and the datasets of the group are read in the order written; `src_history_populations_any_order`: for ANY listing order of the
+  group's datasets (h5py lists alphabetically) the counter and all populations come back (the attributes then agree up to the order of entries,
+  `C13.codec_roundtrip_perm`).  The proof goes through exactly the facts a layout bug breaks:
   the counter is stored under the key it is read from, population `i` is read from the group it was written to, the two group families do not
   collide.
 -/
@@ -153,6 +154,61 @@ theorem src_history_roundtrip (ops : HistOps S G) (hrt : ∀ s, ops.loadSet (ops
     simp [valToNat]
   simp only [hv]
   rw [show ("__sample_history".toList : Str) = sfx from rfl, hread]
+
+/-! ## any listing order of the group's datasets -/
+
+/-- what `load` does, from three facts about the file: the group's datasets, the counter the decoded dictionary holds, the population groups -/
+theorem load_of_facts (ops : HistOps S G) (hrt : ∀ s, ops.loadSet (ops.saveSet s) = s) (declared : List Str) (F : HFile G) (path : Str)
+    (ds : List (Str × H)) (L : List S) (hd : F.getDict (.base path) = some ds)
+    (hc : getK (loadDict ds) cntKey = some (.leaf (.int L.length)))
+    (hs : ∀ j (hj : j < L.length), F.getSet (.item path sfx j) = some (ops.saveSet L[j])) :
+    ∃ h', smc_history_load ops declared F path = some h' ∧ h'.sample_history = L := by
+  have hread := mapM_readback ops hrt path F L hs [] L rfl
+  simp only [List.length_nil] at hread
+  rw [← List.range_eq_range'] at hread
+  unfold smc_history_load
+  rw [hd]
+  have hpop : (dictPop (loadDict ds) cntKey).1 = some (.leaf (.int L.length)) := hc
+  have hv : valToNat (.leaf (.int (L.length : Int))) = some L.length := by simp [valToNat]
+  simp only [show ("__len_sample_history".toList : Str) = cntKey from rfl, show ("__sample_history".toList : Str) = sfx from rfl]
+  generalize hq : dictPop (loadDict ds) cntKey = q at hpop
+  obtain ⟨c, rest⟩ := q
+  simp only at hpop
+  subst hpop
+  simp only [hv, hread]
+  exact ⟨_, rfl, rfl⟩
+
+/-- **h5py lists the members of a group alphabetically**: whatever the order in which the datasets of the history group are enumerated on
+    reload, the counter is read back as the number of stored populations and the populations come back, all of them, in order -/
+theorem src_history_populations_any_order (ops : HistOps S G) (hrt : ∀ s, ops.loadSet (ops.saveSet s) = s) (declared : List Str)
+    (file : HFile G) (path : Str) (h : HistObj S) (hwf : entriesWf h.fields = true) (hkey : ∀ e ∈ h.fields, e.1 ≠ cntKey)
+    (ds : List (Str × H)) (hp : ds.Perm (saveDict (h.fields ++ [(cntKey, .leaf (.int h.sample_history.length))]))) :
+    let F := smc_history_save ops file path h
+    ∃ h', smc_history_load ops declared { F with dicts := (GPath.base path, ds) :: F.dicts } path = some h' ∧
+      h'.sample_history = h.sample_history := by
+  intro F
+  have hwf' : entriesWf (h.fields ++ [(cntKey, .leaf (.int h.sample_history.length))]) = true :=
+    entriesWf_snoc _ _ _ hwf (by decide) (by decide) rfl hkey
+  have heq := codec_roundtrip_perm_symm _ hwf' ds hp
+  obtain ⟨_, hall⟩ := (eqv_dict_iff _ _).1 heq
+  obtain ⟨w, hw, hev⟩ := hall (cntKey, .leaf (.int h.sample_history.length)) (by simp)
+  have hwe : w = .leaf (.int h.sample_history.length) := eqv_leaf_left _ w hev
+  subst hwe
+  have hsave : F = forEnum h.sample_history 0 (putBody ops path)
+        (file.putDict (.base path) (saveDict (h.fields ++ [(cntKey, .leaf (.int h.sample_history.length))]))) := by
+    show smc_history_save ops file path h = _
+    unfold smc_history_save
+    simp only []
+    rw [show ("__len_sample_history".toList : Str) = cntKey from rfl, dictSet_fresh _ _ _ hkey]
+    rfl
+  refine load_of_facts ops hrt declared _ path ds h.sample_history ?_ hw ?_
+  · simp [HFile.getDict]
+  · intro j hj
+    have := forEnum_getSet ops path h.sample_history 0 (file.putDict (.base path) (saveDict (h.fields ++ [(cntKey, .leaf (.int h.sample_history.length))]))) j hj
+    show (HFile.getSet { F with dicts := _ } _) = _
+    simp only [HFile.getSet]
+    rw [hsave]
+    simpa [HFile.getSet] using this
 
 /-- a history without stored populations (`store_sample_history=False`) -/
 example (ops : HistOps Nat Nat) (hrt : ∀ s, ops.loadSet (ops.saveSet s) = s) :
